@@ -76,6 +76,10 @@ func buildReaderModel(p *Program) *readerModel {
 			if s, ok := par.Type().Underlying().(*types.Slice); ok && typeIs(s.Elem(), xmlPkg, "Attr") {
 				isR = true
 			}
+			// a helper that is handed the start tag itself (applyXxxElement(props, t xml.StartElement))
+			if typeIs(par.Type(), xmlPkg, "StartElement") {
+				isR = true
+			}
 		}
 		if isR {
 			m.IsReader[f] = true
